@@ -138,3 +138,33 @@ Lemma norm_le_2_ll fl a b : (0 <= distance fl true a b)%Q /\ (distance fl true a
 Proof. split; [apply norm_nonneg|apply norm_le_2_l]. Qed.
 Lemma kf2_witness : exists a b, (1 < distance (Flags false true) true a b)%Q.
 Proof. exists [[32%N]], [[120%N]]. vm_compute. reflexivity. Qed.
+
+(** [distances]: the error exactly on a length mismatch, else the pointwise distances *)
+Lemma distances_err_l fl nm la lb : length la <> length lb -> distances fl nm la lb = None.
+Proof. intros H. unfold distances. apply Nat.eqb_neq in H. rewrite H. reflexivity. Qed.
+
+Lemma zip_length {A B} : forall (l : list A) (r : list B), length l = length r -> length (zip l r) = length l.
+Proof.
+  induction l as [|x l IH]; intros [|y r] H; cbn [zip length] in *; try discriminate; [reflexivity|].
+  f_equal. apply IH. lia.
+Qed.
+Lemma zip_nth {A B} (da : A) (db : B) : forall (l : list A) (r : list B) k,
+  length l = length r -> k < length l -> nth k (zip l r) (da, db) = (nth k l da, nth k r db).
+Proof.
+  induction l as [|x l IH]; intros [|y r] k H Hk; cbn [zip length] in *; try discriminate; [lia|].
+  destruct k as [|k]; [reflexivity|]. cbn [nth]. apply IH; lia.
+Qed.
+
+Lemma distances_ok_l fl nm la lb : length la = length lb ->
+  exists l, distances fl nm la lb = Some l /\ length l = length la
+    /\ forall k, k < length la -> nth k l 0%Q = distance fl nm (nth k la []) (nth k lb []).
+Proof.
+  intros H. unfold distances. rewrite (proj2 (Nat.eqb_eq _ _) H).
+  eexists. split; [reflexivity|]. split.
+  - rewrite map_length. apply zip_length. exact H.
+  - intros k Hk.
+    rewrite nth_indep with (d' := (fun p => distance fl nm (fst p) (snd p)) ([], []))
+      by (rewrite map_length, zip_length; assumption).
+    pose proof (map_nth (fun p => distance fl nm (fst p) (snd p)) (zip la lb) ([], []) k) as E.
+    cbv beta in E. rewrite E. rewrite zip_nth by assumption. reflexivity.
+Qed.
